@@ -1,6 +1,7 @@
 """Run-time contracts on the connection-matrix layer (C09) and on the registry of connection encoders (C10),
 over enumerated connector settings. Oracle: brute-force enumeration of integer matrices."""
 import itertools
+import zlib
 import math
 import random
 
@@ -39,14 +40,14 @@ def finite_max(d):
     return None
 
 
-def brute(src, tgt, excluded, src_ex, tgt_ex):
+def brute(src, tgt, excluded, src_ex, tgt_ex, par_explicit=None):
     """All valid matrices (as tuples of rows) for the statement's definition."""
     ns, nt = len(src), len(tgt)
     # limit on parallel connections: the largest finite degree among the connectors present in this pattern, at least 2
     # (an absent connector does not influence the others: the same rule as specsem.valid_matrices)
     present = [d for (d, _), e in zip(src, src_ex) if e] + [d for (d, _), e in zip(tgt, tgt_ex) if e]
     fins = [finite_max(d) for d in present if finite_max(d) is not None]
-    par = max([2] + fins)
+    par = max([2] + fins) if par_explicit is None else par_explicit   # an explicit limit of the settings wins
     lim = np.zeros((ns, nt), dtype=int)
     for i, (ds, rs) in enumerate(src):
         for j, (dt, rt) in enumerate(tgt):
@@ -81,6 +82,15 @@ def brute(src, tgt, excluded, src_ex, tgt_ex):
     return out, lim
 
 
+def item_par(item):
+    """Explicit limit on parallel connections of a settings item (tag 'par=N' in the optional 4th element)."""
+    tag = item[3] if len(item) > 3 else ''
+    for part in tag.split(';'):
+        if part.startswith('par='):
+            return int(part[4:])
+    return None
+
+
 def settings_space(tier, seed):
     rng = random.Random(4242)
     out = []
@@ -111,6 +121,13 @@ def settings_space(tier, seed):
         ns, nt = rw.choice([(1, 2), (2, 1), (2, 2)])
         nodes = [rw.choice(wide) if rw.random() < 0.5 else rw.choice(TYPES) for _ in range(ns + nt)]
         out.append((nodes[:ns], nodes[ns:], ()))
+    # an explicit limit on parallel connections (1 and 3) instead of the default
+    rp = random.Random(4444)
+    reps = [t for t in TYPES + wide if t[1]]
+    for _ in range(60 if tier == 'quick' else 300):
+        ns, nt = rp.choice([(1, 1), (1, 2), (2, 1), (2, 2)])
+        nodes = [rp.choice(reps) if rp.random() < 0.8 else rp.choice(TYPES) for _ in range(ns + nt)]
+        out.append((nodes[:ns], nodes[ns:], (), f'par={rp.choice([1, 3])}'))
     if tier == 'thorough':
         r2 = random.Random(9000 + seed)
         for _ in range(300):
@@ -129,12 +146,21 @@ def matrix_chunk(chunk, tier, seed):
     from adsg_core.optimization.assign_enc.matrix import (MatrixGenSettings, AggregateAssignmentMatrixGenerator,
                                                            NodeExistencePatterns)
     ctx = Ctx(None)
-    for src, tgt, ex in chunk:
-        label = f'src={src} tgt={tgt} excluded={list(ex)}'
+    for item in chunk:
+        src, tgt, ex = item[:3]
+        par = item_par(item)
+        label = f'src={src} tgt={tgt} excluded={list(ex)}' + (f' max_conn_parallel={par}' if par is not None else '')
         try:
             patterns = NodeExistencePatterns.get_all_combinations([True] * len(src), [True] * len(tgt))
             settings = MatrixGenSettings([mk_node(s) for s in src], [mk_node(t) for t in tgt],
-                                         excluded=list(ex) or None, existence=patterns)
+                                         excluded=list(ex) or None, existence=patterns, max_conn_parallel=par)
+            # every third setting: the FIRST thing asked of these settings (cold caches) is one existence pattern
+            # only; what is asked afterwards through other generator objects must not depend on that
+            filtered_first = None
+            if len(patterns.patterns) > 1 and zlib.crc32(label.encode()) % 3 == 0:
+                pf = patterns.patterns[zlib.crc32(label.encode()) // 3 % len(patterns.patterns)]
+                filtered_first = (pf, [tuple(map(tuple, m.tolist())) for m, _ in
+                                       AggregateAssignmentMatrixGenerator(settings).iter_matrices(existence=pf)])
             gen0 = AggregateAssignmentMatrixGenerator(settings)
             counted = {}
             for n_src_conn, n_tgt_conn, existence in gen0.iter_n_sources_targets():
@@ -149,8 +175,11 @@ def matrix_chunk(chunk, tier, seed):
             tgt_ex = [existence.has_tgt(j) for j in range(len(tgt))]
             wit = [label, [src_ex, tgt_ex]]
             nt = (label, str(src_ex), str(tgt_ex))
-            ref, lim = brute(src, tgt, set(ex), src_ex, tgt_ex)
+            ref, lim = brute(src, tgt, set(ex), src_ex, tgt_ex, par)
             rows = [tuple(map(tuple, m.tolist())) for m in agg.get(existence, np.zeros((0, len(src), len(tgt))))]
+            if filtered_first is not None and filtered_first[0] == existence:
+                ctx.check('C09.single-pattern-query-equals-valid-set', set(filtered_first[1]) == set(ref) and len(filtered_first[1]) == len(ref),
+                          wit + ['asked-first'], f'iter_matrices(existence=p) as the first query gave {len(filtered_first[1])} matrices, valid {len(ref)}', nt)
             ctx.check('C09.each-matrix-listed-once', len(set(rows)) == len(rows), wit, f'{len(rows)} rows, {len(set(rows))} distinct', nt)
             ctx.check('C09.enumerated-equals-valid-set', set(rows) == set(ref), wit,
                       f'enumerated {len(rows)}, valid {len(ref)}; missing {list(set(ref) - set(rows))[:2]} extra {list(set(rows) - set(ref))[:2]}', nt)
@@ -211,6 +240,13 @@ def encoder_settings(tier, seed):
         sp.append(w + ('present-only',))
     for w in (wide if tier == 'quick' else wide + [([any_], [opt_] * 4, ()), ([any_, any_], [opt_] * 3, ()), ([any_, any_], [any_, opt_], ())]):
         sp.append(w + ('present-only',))
+    # repeatable connections with an explicit limit on parallel connections (1 and 3), in both orientations (pattern
+    # encoders match some of these only through their transposed settings)
+    anyr, min2r, opt2r = (('min', 0), True), (('min', 2), True), (('range', 0, 2), True)
+    for a, b_ in (([anyr], [min2r]), ([min2r], [anyr]), ([anyr], [anyr, anyr]), ([anyr, anyr], [anyr]), ([anyr], [min2r, min2r]),
+                  ([min2r, min2r], [anyr]), ([opt2r], [anyr, anyr]), ([anyr, anyr], [opt2r])):
+        for par in (1, 3):
+            sp.append((a, b_, (), f'present-only;par={par}'))
     return sp
 
 
@@ -245,7 +281,10 @@ def encoder_chunk(chunk, tier, seed):
     for item in chunk:
         src, tgt, ex = item[:3]
         label = f'src={src} tgt={tgt} excluded={list(ex)}'
-        if len(item) > 3 and item[3] == 'present-only':
+        par = item_par(item)
+        if par is not None:
+            label += f' max_conn_parallel={par}'
+        if len(item) > 3 and 'present-only' in item[3]:
             patterns = NodeExistencePatterns.always_exists()
             label += ' (all nodes present)'
         else:
@@ -253,12 +292,12 @@ def encoder_chunk(chunk, tier, seed):
 
         def mk_settings():
             return MatrixGenSettings([mk_node(s) for s in src], [mk_node(t) for t in tgt],
-                                     excluded=list(ex) or None, existence=patterns)
+                                     excluded=list(ex) or None, existence=patterns, max_conn_parallel=par)
         valid = {}
         for existence in patterns.patterns:
             src_ex = [existence.has_src(i) for i in range(len(src))]
             tgt_ex = [existence.has_tgt(j) for j in range(len(tgt))]
-            valid[existence] = set(brute(src, tgt, set(ex), src_ex, tgt_ex)[0])
+            valid[existence] = set(brute(src, tgt, set(ex), src_ex, tgt_ex, par)[0])
         if sum(len(v) for v in valid.values()) == 0:
             continue
         for fname, fac, imp, kind in facs:
